@@ -25,8 +25,10 @@ EXTENDS Integers, Sequences, FiniteSets, SequencesExt
 
 Concat(ss) == FoldLeft(LAMBDA acc, s : acc \o s, <<>>, ss)
 Kinds == {"ok1", "ok2", "okstate", "oknest", "okneg", "failP", "failPH", "failT", "failC", "failNPH", "failU"}     \* oknest: state set by an item inside a nested pipeline
-Fails(k) == k \in {"failP", "failPH", "failT", "failC", "failNPH", "failU"}
-FailStage(k) == CASE k = "failP" -> "apply" [] k \in {"failPH", "failT", "failC", "failU"} -> "convert" [] k = "failNPH" -> "negated" [] OTHER -> "none"
+\* (failM: the rule names a field by the TARGET name of the pipeline's mapping - not a mapped field of this rule, the
+\*  strict mapping check of the pipeline fails it; okdrop see Gen_C08)
+Fails(k) == k \in {"failP", "failPH", "failT", "failC", "failNPH", "failU", "failM"}
+FailStage(k) == CASE k \in {"failP", "failM"} -> "apply" [] k \in {"failPH", "failT", "failC", "failU"} -> "convert" [] k = "failNPH" -> "negated" [] OTHER -> "none"
 Negates(k) == k \in {"okneg", "failNPH"}
 NQueries(k) == IF k = "ok2" THEN 2 ELSE IF Fails(k) THEN 0 ELSE 1
 StateOf(k) == IF k = "okstate" THEN "win" ELSE IF k = "oknest" THEN "nestwin" ELSE "default"
